@@ -2,6 +2,10 @@
    C15   index sets of both nested schemes, trigonometric recurrence, mirror symmetry, derivative of the two interval maps
    C15b  the rule over ℝ: the change of variables that explains the sin⁴ weights, exactness on constants and on cosine
          polynomials of degree < 2(n+1), the nesting identities T_{2n+1} = T_n + new and the two-point step, convergence of the
-         rule to ∫_{-1}^{1} f for every continuous f, and the half-line change of variables with its transformed rule -/
+         rule to ∫_{-1}^{1} f for every continuous f, and the half-line change of variables with its transformed rule
+   C15c  the EXECUTABLE model at ℝ computes that rule: `initGrid` stores the Pérez-Jordá nodes and sin⁴ weights, and `integrate`
+         (both schemes, plain and transformed grids) returns `rule F n` for the level n at which it stops, the finest one when it
+         reports no convergence; what the start/stop clipping of `sumTerms` really adds -/
 import Ecpint.Props.C15
 import Ecpint.Props.C15b
+import Ecpint.Props.C15c
